@@ -390,6 +390,11 @@ FORCED = [
     # a record without body bytes: the freeblock holds nothing but the serial types after the first
     ("flags", 1024, 12, "two_apart", "db", 0),
     ("flags", 512, 40, "middle", "wal", 0),
+    # a TEXT / BLOB first column whose serial type SURVIVES in the freeblock: the row id takes two bytes (128..16383), so
+    # the first serial type is the fifth byte of the cell, behind the freeblock header
+    ("textvar_int", 1024, 160, "last", "db", 0),
+    ("blob_text_int", 4096, 160, "last", "wal", 0),
+    ("text5_int", 512, 160, "two_apart", "db", 0),
 ]
 
 
@@ -445,7 +450,10 @@ def _c(f):
 def _m_variable_first(f):
     c = _c(f)
     return (f.get("kind") == "not-recalled" and c.get("location") in ("freeblock", "unalloc", "freelist")
-            and c.get("how") == "partial" and c.get("first_column_variable") is True)
+            and c.get("how") == "partial" and c.get("first_column_variable") is True
+            # (the finding is about a first serial type that was overwritten; one that survived - a two-byte row id or
+            # payload size puts it behind the four bytes of the freeblock header - is read from the page and must be used)
+            and not (c.get("location") == "freeblock" and (c.get("verdict") or {}).get("first_intact") is True))
 
 
 def _m_freelist_not_rewritten(f):
